@@ -367,6 +367,10 @@ class Generator:
         it.canary_full = join(co)
         it.n_canaries = len(cpos)
         it.stub = '#[verifier::external_body]\n' + join(header) + '{ unimplemented!() }\n'
+        if it.kind == 'const' and impl is None:
+            # module-level `exec const`: rustc const-evaluates the body, so an `unimplemented!()` stub is a
+            # compile error (E0080); emit the real (cheap) definition in every unit instead
+            it.stub = it.full
         gt = []
         for _, g in ghosts:
             gt += g
